@@ -40,7 +40,7 @@ BaseOrder(side, price, size, tif, minfill) ==
     [status |-> "PENDING", cplt |-> FALSE, bet |-> FALSE, side |-> side, type |-> "LIMIT",
      price |-> price, size |-> size, pers |-> "LAPSE", tif |-> tif, minfill |-> minfill,
      m |-> 0, can |-> 0, lap |-> 0, void |-> 0, avg |-> 0, frags |-> <<>>, piq |-> 0,
-     bspd |-> FALSE, mver |-> -1, selk |-> "1", client |-> "c1", bseq |-> 0]
+     bspd |-> FALSE, mver |-> -1, selk |-> "1", client |-> "c1", bseq |-> 0, lad |-> "CLASSIC"]
 
 OrderSpace ==
     {BaseOrder(sd, p, z, tf, mf) : sd \in {"BACK", "LAY"}, p \in Prices, z \in Sizes \ {0},
